@@ -12,9 +12,9 @@
 //	crash                              drop the object; reload key + state from the files with the package's
 //	                                   own constructors (LoadOrMakeLocalSigner + NewPrivValidator)
 //	failsave on|open|off               make persisting fail / work again (see failOn below)
-//	cut <where> vote|prop <args…>      run ONE request in a child process that is really killed by the kernel
-//	                                   inside WriteFileAtomic, then restart from the directory it left behind;
-//	                                   where ∈ open | write | rename | after   (see worker())
+//	cut <where> vote|prop <args…>      drop the object (as crash), serve ONE request in a NEW child process that loads the
+//	                                   files and is really killed by the kernel inside WriteFileAtomic, then restart
+//	                                   from the directory it left behind; where ∈ open | write | rename | after (see worker())
 //
 // body abstracts everything in the sign-bytes except the timestamp (BlockID,
 // POLRound, chain id are derived injectively from it); ts = unix seconds.
@@ -255,6 +255,7 @@ type entry struct {
 
 type harness struct {
 	root   string
+	shm    string
 	key    string
 	caseN  int
 	dir    string
@@ -266,19 +267,43 @@ type harness struct {
 
 var H = &harness{}
 
+// Scratch root: /tmp/c34-<pid>.  Every persisted sign state is written with
+// O_SYNC; on a journalling file system that costs ~5 ms per request and makes
+// the thorough tier take hours when eight harness processes run in parallel.
+// Durability of the medium is an assumption of C34, not something the check
+// observes, so when /dev/shm is a usable tmpfs the root is a symlink
+// /tmp/c34-<pid> -> /dev/shm/c34-<pid> (same system calls, same rename
+// semantics, no journal).  C34_SCRATCH=disk forces a plain directory.
 func (x *harness) init() {
 	if x.root != "" {
 		return
 	}
 	x.root = fmt.Sprintf("/tmp/c34-%d", os.Getpid())
 	os.RemoveAll(x.root)
-	if err := os.MkdirAll(x.root, 0o700); err != nil {
-		panic(err)
+	x.shm = ""
+	if os.Getenv("C34_SCRATCH") != "disk" {
+		shm := fmt.Sprintf("/dev/shm/c34-%d", os.Getpid())
+		os.RemoveAll(shm)
+		if err := os.MkdirAll(shm, 0o700); err == nil {
+			if err := os.Symlink(shm, x.root); err == nil {
+				x.shm = shm
+			} else {
+				os.RemoveAll(shm)
+			}
+		}
+	}
+	if x.shm == "" {
+		if err := os.MkdirAll(x.root, 0o700); err != nil {
+			panic(err)
+		}
 	}
 	x.key = filepath.Join(x.root, "priv_validator_key.json")
 }
 
 func (x *harness) cleanup() {
+	if x.shm != "" {
+		os.RemoveAll(x.shm)
+	}
 	if x.root != "" {
 		os.RemoveAll(x.root)
 	}
@@ -737,9 +762,10 @@ func boundary(g *gen) {
 	g.cse("b", "failsave on", "vote 1 0 2 1 10", "vote 2 0 2 1 10", "failsave off", "vote 1 5 2 1 10", "vote 2 0 3 1 10", "crash", "vote 2 0 3 1 12")
 	g.cse("b", "failsave on", "cut rename vote 1 0 2 1 10", "failsave off", "cut rename vote 1 0 2 1 10")
 	// real kills inside WriteFileAtomic
+	g.cse("b", "vote 7 2 2 1 1", "cut rename vote 7 1 2 1 1", "cut open vote 7 2 1 1 1", "cut after vote 7 2 2 1 5", "cut write vote 7 2 2 2 5")
 	for _, wh := range []string{"open", "write", "rename", "after"} {
 		g.cse("b", "vote 1 0 2 1 10", "cut "+wh+" vote 1 0 3 1 10", "vote 1 0 3 2 11", "vote 1 0 3 1 12", "crash", "vote 1 0 3 1 10")
-		g.cse("b", "cut "+wh+" prop 7 2 3 10", "prop 7 2 4 10", "prop 7 2 3 10", "cut "+wh+" prop 7 2 3 11", "cut "+wh+" vote 7 1 2 1 1", "cut "+wh+" vote 7 2 1 1 1")
+		g.cse("b", "cut "+wh+" prop 7 2 3 10", "prop 7 2 4 10", "prop 7 2 3 10", "cut "+wh+" prop 7 2 3 11")
 	}
 }
 
@@ -860,24 +886,24 @@ func generate(w *kit.Out, r *kit.Rand, tier string) {
 	g := &gen{w: w, r: r, tier: tier}
 	boundary(g)
 	if tier == "thorough" {
-		for i := 0; i < 2500; i++ {
+		for i := 0; i < 900; i++ {
 			random(g, 40, 25, 0, 12)
 		}
-		for i := 0; i < 300; i++ {
+		for i := 0; i < 100; i++ {
 			random(g, 200, 25, 0, 8)
 		}
-		for i := 0; i < 400; i++ {
-			random(g, 30, 15, 15, 8) // with real kills inside WriteFileAtomic
+		for i := 0; i < 50; i++ {
+			random(g, 30, 15, 12, 8) // with real kills inside WriteFileAtomic (each one spawns a process: ~0.3 s CPU)
 		}
-		for i := 0; i < 300; i++ {
+		for i := 0; i < 100; i++ {
 			malformed(g)
 		}
 		return
 	}
-	for i := 0; i < 700; i++ {
+	for i := 0; i < 600; i++ {
 		random(g, 40, 25, 0, 12)
 	}
-	for i := 0; i < 40; i++ {
+	for i := 0; i < 4; i++ { // few: each real kill spawns a process (~0.3 s CPU)
 		random(g, 20, 15, 15, 8)
 	}
 	for i := 0; i < 100; i++ {
@@ -890,6 +916,7 @@ func main() {
 		worker(os.Args[2:])
 		return
 	}
+	runtime.GOMAXPROCS(2) // several harness processes run side by side; the work is sequential
 	defer H.cleanup()
 	kit.Main(&kit.Harness{
 		Gen:   generate,
